@@ -210,6 +210,42 @@ theorem breakLoop_sim {P : Params} (hP : P.WF) : ∀ (ms : List (Rat × Rat)) (S
         exact ⟨hl, trivial⟩
       · simp only [List.map_cons, List.map_nil, specUntilStop, hst, if_true, hc', Bool.not_true]
 
+/-- a caller that never called `update_for_epoch` again after it had returned `False` ran the
+`break` loop -/
+theorem breakLoop_of_obeyed {P : Params} : ∀ (ms : List (Rat × Rat)) (S S' : State) (outs : List Out),
+    run P S ms = .ok (S', outs) → (∀ o ∈ outs.dropLast, o.cont = true) →
+    breakLoop P S ms = .ok (S', outs) := by
+  intro ms
+  induction ms with
+  | nil =>
+    intro S S' outs h _
+    simpa [run, breakLoop] using h
+  | cons m ms ih =>
+    intro S S' outs h hob
+    obtain ⟨S1, o, os, hs, hr, rfl⟩ := run_cons_inv h
+    unfold breakLoop
+    simp only [hs]
+    cases ms with
+    | nil =>
+      simp only [run, Except.ok.injEq, Prod.mk.injEq] at hr
+      obtain ⟨rfl, rfl⟩ := hr
+      by_cases hc : o.cont = true
+      · simp [hc, breakLoop]
+      · simp [hc]
+    | cons m2 ms2 =>
+      obtain ⟨S2, o2, os2, _, _, hos⟩ := run_cons_inv hr
+      have hc : o.cont = true := by
+        apply hob
+        rw [hos, List.dropLast_cons_cons]
+        simp
+      have hob' : ∀ x ∈ os.dropLast, x.cont = true := by
+        intro x hx
+        apply hob
+        rw [hos] at hx ⊢
+        rw [List.dropLast_cons_cons]
+        simp [hx]
+      simp only [hc, if_true, ih S1 S' os hr hob']
+
 /-! ## the `while continue_training()` loop is the same loop -/
 
 theorem whileLoop_stopped {P : Params} {S : State} (h : continueTraining P S = .ok false)
